@@ -694,3 +694,134 @@ Proof.
   - intros [v [Hv He]]. vm_compute in Hv. cbn [c_id] in He.
     destruct Hv as [<-|[<-|[]]]; vm_compute in He; discriminate.
 Qed.
+
+(* ------------------------------------------------------------------ BeginBlockLaunchConsumers: a consumer due in
+   this block is launched iff its [next_set] is non-empty and contains an active validator; its stored set is then
+   that [next_set], whatever its position in the list of due consumers *)
+
+Lemma nth_set_nth_same (n : nat) c (s : state) d : (n < length s)%nat -> nth n (set_nth n c s) d = c.
+Proof. revert n. induction s as [|a t IH]; intros [|n] H; simpl in *; try lia; [reflexivity|]. apply IH. lia. Qed.
+
+Lemma nth_set_nth_other (n m : nat) c (s : state) d : n <> m -> nth n (set_nth m c s) d = nth n s d.
+Proof.
+  revert n m. induction s as [|a t IH]; intros n m H; [destruct m; reflexivity|].
+  destruct m as [|m]; destruct n as [|n]; simpl; try reflexivity; try lia. apply IH. lia.
+Qed.
+
+Lemma length_set_nth (n : nat) c (s : state) : length (set_nth n c s) = length s.
+Proof. revert n. induction s as [|a t IH]; intros [|n]; simpl; try reflexivity. now rewrite IH. Qed.
+
+Lemma get_upd_same s i c : 0 <= i < Z.of_nat (length s) -> get (upd s i c) i = c.
+Proof.
+  intros H. unfold get, upd. destruct (Z.ltb_spec i 0); [lia|]. apply nth_set_nth_same. lia.
+Qed.
+
+Lemma get_upd_other s i j c : 0 <= i -> i <> j -> get (upd s j c) i = get s i.
+Proof.
+  intros Hi Hne. unfold get, upd. destruct (Z.ltb_spec j 0); [reflexivity|]. apply nth_set_nth_other. lia.
+Qed.
+
+Lemma length_upd s j c : length (upd s j c) = length s.
+Proof. unfold upd. destruct (j <? 0); [reflexivity|apply length_set_nth]. Qed.
+
+Lemma has_active_perm next a a' : Permutation a a' -> has_active next a = has_active next a'.
+Proof.
+  intros HP. unfold has_active. induction next as [|x t IH]; simpl; [reflexivity|].
+  rewrite IH. f_equal. now apply existsb_perm.
+Qed.
+
+Definition launch_cond (nx : list cval) (c : consumer) (active : list sval) : bool :=
+  negb (launched c) && negb (is_nil nx) && has_active nx active.
+
+Lemma launch_cond_perm nx c a a' : Permutation a a' -> launch_cond nx c a = launch_cond nx c a'.
+Proof. intros HP. unfold launch_cond. now rewrite (has_active_perm nx a a' HP). Qed.
+
+Lemma launch_one_spec M height s sl d :
+  launch_one M height (s, sl) d =
+  let r := compute_consumer_next_valset M height (get s (fst d)) (snd d) sl in
+  let c' := fst (fst r) in
+  (if launch_cond (snd (fst r)) (get s (fst d)) (snd sl)
+   then upd s (fst d) (mkCons (cfg c') (opted c') (keys c') (valset c') true) else s, snd r).
+Proof.
+  unfold launch_one, launch_cond. cbv zeta.
+  destruct (compute_consumer_next_valset M height (get s (fst d)) (snd d) sl) as [[c' nx] sl'].
+  cbn [fst snd]. destruct (_ && _ && _); reflexivity.
+Qed.
+
+Lemma launch_fold_frame M height i : forall due s sl,
+  0 <= i -> ~ In i (map fst due) ->
+  get (fst (fold_left (launch_one M height) due (s, sl))) i = get s i.
+Proof.
+  induction due as [|d t IH]; intros s sl Hi Hn; [reflexivity|].
+  cbn [fold_left]. rewrite launch_one_spec. cbv zeta.
+  rewrite IH by (try assumption; intros H; apply Hn; now right).
+  destruct (launch_cond _ _ _); [|reflexivity].
+  apply get_upd_other; [assumption|]. intros He. apply Hn. left. now rewrite He.
+Qed.
+
+Lemma launch_fold_length M height : forall due s sl,
+  length (fst (fold_left (launch_one M height) due (s, sl))) = length s.
+Proof.
+  induction due as [|d t IH]; intros s sl; [reflexivity|].
+  cbn [fold_left]. rewrite launch_one_spec. cbv zeta. rewrite IH.
+  destruct (launch_cond _ _ _); [apply length_upd|reflexivity].
+Qed.
+
+Lemma launch_fold M height sl0 i mp : forall due s sl,
+  slices_equiv sl0 sl -> NoDup (map fst due) -> In (i, mp) due -> 0 <= i < Z.of_nat (length s) ->
+  let c := get s i in
+  let nx := snd (fst (compute_consumer_next_valset M height c mp sl0)) in
+  let c' := get (fst (fold_left (launch_one M height) due (s, sl))) i in
+  if launch_cond nx c (snd sl0)
+  then launched c' = true /\ valset c' = nx /\ cfg c' = cfg c /\ keys c' = keys c /\
+       (forall x, mem x (opted c') = mem x (opted (fst (fst (compute_consumer_next_valset M height c mp sl0)))))
+  else c' = c.
+Proof.
+  induction due as [|d t IH]; intros s sl Heq Hnd Hin Hi; [contradiction|].
+  inversion Hnd as [|? ? Hna Hnt]; subst.
+  cbn [fold_left]. rewrite launch_one_spec. cbv zeta.
+  destruct (ccnv_equiv M height (get s (fst d)) (snd d) sl0 sl Heq) as [H1 [H2 H3]].
+  destruct Hin as [->|Hin].
+  - cbn [fst snd] in *.
+    rewrite launch_fold_frame by (try assumption; lia).
+    rewrite H1. rewrite (launch_cond_perm _ _ _ _ (Permutation_sym (sos_perm _ _ (proj2 Heq)))).
+    destruct (launch_cond _ _ _) eqn:Hc; [|reflexivity].
+    rewrite get_upd_same by assumption. cbn [launched valset cfg keys opted].
+    destruct H2 as [Hcfg [Hk [Hv Hm]]].
+    pose proof (ccnv_consumer M height (get s i) mp sl) as Hcs.
+    pose proof (ccnv_consumer M height (get s i) mp sl0) as Hcs0.
+    repeat split.
+    + rewrite Hcs. cbn [valset set_valset]. exact H1.
+    + rewrite Hcfg, Hcs0. cbn [cfg set_valset]. apply after_optin_cfg.
+    + rewrite Hk, Hcs0. cbn [keys set_valset]. apply after_optin_keys.
+    + exact Hm.
+  - assert (Hne : i <> fst d).
+    { intros He. apply Hna. rewrite <- He. change i with (fst (i, mp)). now apply in_map. }
+    set (s2 := if launch_cond _ _ _ then upd s (fst d) _ else s).
+    assert (Hg : get s2 i = get s i).
+    { unfold s2. destruct (launch_cond _ _ _); [|reflexivity]. apply get_upd_other; lia. }
+    assert (Hl : length s2 = length s).
+    { unfold s2. destruct (launch_cond _ _ _); [apply length_upd|reflexivity]. }
+    specialize (IH s2 _ H3 Hnt Hin ltac:(lia)). cbv zeta in IH. rewrite Hg in IH. exact IH.
+Qed.
+
+Theorem launch_is_next_set (s : state) height oracle maxv M due i mp :
+  NoDup (map fst due) -> In (i, mp) due -> 0 <= i < Z.of_nat (length s) ->
+  let c := get s i in
+  let nx := next_set oracle maxv M height c mp in
+  let c' := get (step s (Launch height oracle maxv M due)) i in
+  if launch_cond nx c (firstn (Z.to_nat M) oracle)
+  then launched c' = true /\ valset c' = nx /\ cfg c' = cfg c /\ keys c' = keys c
+  else c' = c.
+Proof.
+  intros Hnd Hin Hi. cbv zeta. cbn [step].
+  pose proof (launch_fold M height (mk_slices oracle maxv M) i mp due s (mk_slices oracle maxv M)
+                (conj (sos_refl _) (sos_refl _)) Hnd Hin Hi) as H.
+  cbv zeta in H. unfold next_set. unfold mk_slices in H at 2. cbn [snd] in H.
+  rewrite take_max_firstn in H.
+  destruct (launch_cond _ _ _); [|exact H]. tauto.
+Qed.
+
+Theorem launch_frame (s : state) height oracle maxv M due i :
+  0 <= i -> ~ In i (map fst due) -> get (step s (Launch height oracle maxv M due)) i = get s i.
+Proof. intros Hi Hn. cbn [step]. now apply launch_fold_frame. Qed.
